@@ -195,7 +195,7 @@ pub fn run(args: &Args) {
         }
         let Ok(Ok(p)) = guarded(|| gen_::build(&cfg, &wd)) else { continue };
         let mut bytes = vec![];
-        p.write(&mut bytes).unwrap();
+        p.write(&mut Plain(&mut bytes)).unwrap();
         let j = Jail::new(&format!("b{i}"));
         let (outcome, outside, inside) = run_extract(&j, &bytes);
         let want: Vec<Value> = cfg.files.iter().map(|f| {
